@@ -25,7 +25,8 @@ RULE = ('well-formed expressions of depth <=5 (thorough <=6) from a typed '
         'generated, plus collections mixing records and nested lists of '
         'records under member access; index forms with null defaults and '
         'with maps / lists as keys of map literals (equal maps written in '
-        'different key orders); histories of evaluations that are '
+        'different key orders); lambdas passed by keyword (toDict, select, '
+        'where, aggregate ...) and `?.` on empty receivers; histories of evaluations that are '
         'given no context, '
         'with the document and then with no data at all (`$` unknown); '
         'non-trivial = scope '
@@ -664,6 +665,53 @@ INDEX_ASTS = [
 ]
 
 
+# lambdas passed by keyword (the names are the convention-translated python
+# names, several of them multi-word) and `?.` on empty / zero receivers
+_ITEMS = ('dot', ('var', '$'), 'items')
+KEYWORD_ASTS = [
+    ('m', _ITEMS, 'toDict', (('var', '$'), ('bin', '*', ('var', '$'),
+                                            ('int', 10))),
+     (None, 'valueSelector')),
+    ('m', _ITEMS, 'toDict', (('bin', '+', ('var', '$'), ('int', 1)),
+                             ('list', (('var', '$'), ('var', '$1')))),
+     ('keySelector', 'valueSelector')),
+    ('m', _ITEMS, 'toDict', (('var', '$'), ('bin', '+', ('var', '$'),
+                                            ('dot', ('var', '$d'), 'n'))),
+     ('keySelector', 'valueSelector')),
+    ('m', _ITEMS, 'select', (('bin', '*', ('var', '$'), ('int', 2)),),
+     ('selector',)),
+    ('m', _ITEMS, 'where', (('bin', '>', ('var', '$'), ('int', 0)),),
+     ('predicate',)),
+    ('m', _ITEMS, 'aggregate', (('bin', '+', ('var', '$1'), ('var', '$2')),
+                                ('int', 0)), ('selector', 'seed')),
+    ('m', _ITEMS, 'selectMany', (('list', (('var', '$'), ('var', '$'))),),
+     ('selector',)),
+    ('m', _ITEMS, 'takeWhile', (('bin', '<', ('var', '$'), ('int', 3)),),
+     ('predicate',)),
+    # ?. on receivers that are empty or zero but not null
+    ('qm', ('dot', ('var', '$'), 'empty'), 'len', ()),
+    ('qm', _ITEMS, 'len', ()),
+    ('qdot', ('dot', ('var', '$'), 'empty'), 'a'),
+    ('m', ('list', (('list', ()), _ITEMS, ('null',))), 'select',
+     (('qm', ('var', '$'), 'len', ()),)),
+    ('qm', ('dot', ('var', '$'), 'none'), 'len', ()),
+    ('qm', ('dot', ('var', '$'), 'empty'), 'toList', ()),
+    ('qm', ('dot', ('var', '$'), 'empty'), 'select', (('var', '$'),)),
+]
+
+
+def keyword_cases():
+    return st.builds(
+        lambda a, items, n: {
+            'kind': 'program',
+            'ast': ('let', (), (('d', ('var', '$')),), a),
+            'features': ['shadow', 'outer-read'],
+            'doc': {'items': items, 'n': n, 'empty': [], 'none': None}},
+        st.sampled_from(KEYWORD_ASTS),
+        st.lists(st.integers(-2, 4), max_size=4, unique=True),
+        st.integers(-3, 5))
+
+
 def index_cases():
     return st.builds(
         lambda a, m, x, y: {
@@ -687,6 +735,8 @@ def _shard(run, n, depth, shard):
     run.hyp('programs', programs(depth), lambda c: check_program(run, c), n,
             shard=shard)
     run.hyp('mixed-collections', mixed_cases(),
+            lambda c: check_program(run, c), max(n // 10, 5), shard=shard)
+    run.hyp('keyword-lambdas-and-elvis', keyword_cases(),
             lambda c: check_program(run, c), max(n // 10, 5), shard=shard)
     run.hyp('index-forms', index_cases(),
             lambda c: check_program(run, c), max(n // 12, 5), shard=shard)
